@@ -17,7 +17,7 @@ from .. import common
 from ..common import enc_str
 
 BUILTIN = ["mpilot.libraries.eems.basic", "mpilot.libraries.eems.csv", "mpilot.libraries.eems.netcdf", "mpilot.libraries.eems.fuzzy"]
-USER_MODULES = ["ulib", "ulib_extra", "ulib.sub", "ulibx", "vlib", "vlib.a", "vlib.b"]
+USER_MODULES = ["ulib", "ulib_extra", "ulib.sub", "ulib.sub.deep", "ulibx", "vlib", "vlib.a", "vlib.b", "vlib.a.x.y"]
 USER_LIBS = ["ulib", "ulib_extra", "ulibx", "vlib", "ulib.sub", "vlib.a"]
 NAMES = ["Alpha", "Beta", "Gamma", "Sum", "EEMSRead"]
 
@@ -29,7 +29,7 @@ mods = {}
 for m in USER_MODULES:
     mod = types.ModuleType(m); sys.modules[m] = mod; mods[m] = mod
 for m in USER_MODULES:
-    if "." in m:
+    if "." in m and m.rsplit(".", 1)[0] in mods:
         setattr(mods[m.rsplit(".", 1)[0]], m.rsplit(".", 1)[1], mods[m])
 from mpilot.program import Program
 from mpilot.exceptions import MPilotError
@@ -125,9 +125,9 @@ def check_offer(ctx, before, libs, out, hist):
 DISK_FILES = {
     "dl.py": ("dl", "Eps"), "dlib.py": ("dlib", "Alpha"), "dlib_extra/__init__.py": None, "dlib_extra/inner.py": ("dlib_extra.inner", "Beta"),
     "dlib_more.py": ("dlib_more", "Gamma"), "dlibx.py": ("dlibx", "Delta"), "dpack/__init__.py": ("dpack", "Zeta"), "dpack/sub.py": ("dpack.sub", "Eta"),
-    "dpack/sub2.py": ("dpack.sub2", "Alpha"),
+    "dpack/sub2.py": ("dpack.sub2", "Alpha"), "dpack/inner/__init__.py": None, "dpack/inner/deep.py": ("dpack.inner.deep", "Theta"),
 }
-DISK_LIBS = ["dl", "dlib", "dlib_extra", "dlib_more", "dlibx", "dpack", "dpack.sub", "dlib_extra.inner"]
+DISK_LIBS = ["dl", "dlib", "dlib_extra", "dlib_more", "dlibx", "dpack", "dpack.sub", "dlib_extra.inner", "dpack.inner"]
 
 DISK_RUNNER = r'''
 import sys, json
@@ -216,6 +216,12 @@ def run(ctx):
         [["c", ["mpilot.libraries.eems"]], ["c", ["mpilot.libraries.eems.csv"]], ["d", "ulib", "EEMSRead", 1], ["c", ["mpilot.libraries.eems.netcdf"]], ["c", ["ulib", "mpilot.libraries.eems.csv"]]],
         [["d", "ulib", "Alpha", 1], ["c", ["ulib"]], ["d", "ulib", "Alpha", 2], ["c", ["ulib"]], ["d", "vlib", "Alpha", 3], ["c", ["ulib"]], ["c", ["vlib", "ulib"]]],
         [["c", []], ["d", "ulib", "Alpha", 1], ["c", []], ["c", ["ulib"]], ["c", []]],
+        # commands defined after a Program for the same request was built (a plug-in registered late, a class defined in __main__): the next Program sees them
+        [["c", ["ulib"]], ["d", "ulib", "Alpha", 1], ["c", ["ulib"]], ["d", "ulib.sub", "Beta", 2], ["c", ["ulib"]], ["d", "ulibx", "Gamma", 3], ["c", ["ulib"]]],
+        [["c", ["vlib", "ulib"]], ["d", "vlib.a", "Alpha", 1], ["c", ["vlib", "ulib"]], ["d", "ulib", "Alpha", 2], ["c", ["vlib", "ulib"]], ["c", ["ulib", "vlib"]]],
+        # commands several package levels below the requested library
+        [["d", "ulib.sub.deep", "Alpha", 1], ["d", "vlib.a.x.y", "Beta", 2], ["c", ["ulib"]], ["c", ["ulib.sub"]], ["c", ["vlib"]], ["c", ["vlib.a"]], ["c", ["ulib.sub.deep", "vlib.b"]]],
+        [["d", "ulib.sub.deep", "Alpha", 1], ["d", "ulib", "Alpha", 2], ["c", ["ulib"]], ["c", ["ulib.sub"]]],
     ]
     answers = model.ask([model_line(h, builtin) for h in hists])
     for hist, ans in zip(hists, answers):
